@@ -577,8 +577,17 @@ func (w *world) nextRequest(r *rng.R, c int) []byte {
 	switch kind {
 	case 27: // a request whose answer is an authentication error of the node (a script can produce one at will)
 		w.tagset["backend-auth-error"] = true
-		if r.Chance(50) {
+		switch r.Intn(5) {
+		case 0, 1:
 			return bulk([]byte(r.Pick("EVAL", "eval")), []byte("return redis.error_reply('NOAUTH Authentication required.')"), []byte("1"), key("noauth"))
+		case 2:
+			if !w.cfg.single {
+				return bulk([]byte("del"), key("a"), key("bnoauth"), key("c"))
+			}
+		case 3:
+			if !w.cfg.single {
+				return bulk([]byte(r.Pick("mget", "mset")), key("anoauth"), key("b"))
+			}
 		}
 		return bulk([]byte("get"), key("noauth"))
 	case 24: // AUTH from a client: right password, wrong password, or no password configured
